@@ -789,7 +789,7 @@ def variants(repo):
     ct = "pandapower/control/controller/trafo/ContinuousTapControl.py"
     tc = "pandapower/control/controller/trafo_control.py"
     return [
-        V("initialize_control re-reads only the tap position", tc, replace_once("        self._set_tap_parameters(net)\n        self._set_tap_side_coeff(net)", "        self.tap_pos = read_from_net(net, self.element, self.element_index, \"tap_pos\", self._read_write_flag)\n        self._set_tap_side_coeff(net)"), "initialize_control::re-read"),
+        V("initialize_control re-reads only the tap position", tc, in_function("initialize_control", replace_once("        self._set_tap_parameters(net)\n", "        self.tap_pos = read_from_net(net, self.element, self.element_index, \"tap_pos\", self._read_write_flag)\n")), "initialize_control::re-read"),
         V("characteristic control converged on any decrease", "pandapower/control/controller/characteristic_control.py", replace_once("np.all(np.abs(diff) < self.tol)", "np.all(diff < self.tol)"), "CONV-ABS"),
         V("levels truncated to integers", rc, replace_once("level = controller.level.apply(asarray).values", "level = controller.level.apply(asarray, dtype=np.int64).values"), "levels-not-truncated"),
         V("initial run asked of the last controller only", rc, in_function("check_for_initial_run", replace_once("            if net.controller.at[ctrl.index, 'initial_run']:\n                return True", "        if net.controller.at[ctrl.index, 'initial_run']:\n            return True")), "check_for_initial_run::per-controller"),
